@@ -657,6 +657,38 @@ fn gen(args: &Args, emit: &mut dyn FnMut(String)) {
             emit(format!("H 10 {} {:x} 0 {}", show_init(init), *rng.pick(&TSIS), ops.join(" ")));
         }
     }
+    //     directed: an object removed WHILE it is being transmitted keeps its TOI until the transfer has ended;
+    //     the counter is then cycled back onto that TOI and more TOIs are taken (handles and objects)
+    let dirn = if thorough { 96 } else { 16 };
+    for k in 0..dirn {
+        let init = match k % 4 {
+            0 => Some(1u128),
+            1 => Some(0xfffe),
+            2 => None,
+            _ => Some(rng.below(0x1_0000) as u128),
+        };
+        let mut a = Abs::new();
+        let mut ops: Vec<String> = Vec::new();
+        for t in ["O", "O", "S0", "R0", "S1"] {
+            a.apply(t);
+            ops.push(t.to_string());
+        }
+        if k % 3 == 0 {
+            a.apply("R1");
+            ops.push("R1".into());
+        }
+        let n = 65_529 + (k as u64 % 8);
+        ops.push(format!("C{:x}", n));
+        for t in ["A", "O", "A", "A", "O", "A", "A", "O"] {
+            a.apply(t);
+            ops.push(t.to_string());
+        }
+        let post = rng.range(2, 6) as usize;
+        ops.extend(random_history(&mut rng, post, &mut a, false));
+        if mine(k) {
+            emit(format!("H 10 {} {:x} 0 {}", show_init(init), *rng.pick(&TSIS), ops.join(" ")));
+        }
+    }
     //     and short churns across the wrap for the wider spaces
     let wr = if thorough { 600 } else { 60 };
     for k in 0..wr {
